@@ -22,6 +22,10 @@ def route (ms : List SchemaMapping) (defOut defPkg : String) (id : String) : Out
   | some m => { fileName := m.outputName, pkg := m.packageName }
   | none => { fileName := defOut, pkg := defPkg }
 
+/-- `Generator.getRootTypeName`: the root-type override of the first mapping with this id that has one -/
+def rootOverride (ms : List SchemaMapping) (id : String) : Option String :=
+  (ms.find? (fun m => m.schemaID = id ∧ m.rootType ≠ "")).map (·.rootType)
+
 inductive RouteErr where
   | noPackage (id : String)
   | conflictSameFile (file pkg1 pkg2 : String)
